@@ -192,12 +192,13 @@ class Obs(object):
     """Broker observer with a seeded hash (observers live in sets)."""
     _verif_generated = True
 
-    def __init__(self, name, h, raises, log):
+    def __init__(self, name, h, raises, log, nameless=False):
         self.name = name
         self._h = h
         self.raises = raises
         self.log = log
-        self.__name__ = name
+        if not nameless:
+            self.__name__ = name          # a functools.partial or a plain callable object has no __name__
 
     def __hash__(self):
         return self._h
@@ -444,7 +445,7 @@ def gen_program(st, flavour, tier):
         case["observers"].append({"name": "o%d" % o, "h": rk.getrandbits(40),
                                   "on": rk.choice(["all", "all", "rule", "datasource", "parser", "plugin"]),
                                   "raises": fl["observers"] > 1 and rf.random() < 0.4,
-                                  "glob": rk.random() < 0.3})
+                                  "glob": rk.random() < 0.3, "nameless": rk.random() < 0.3})
     if rk.random() < fl["enable_cfg"]:
         cfgs = []
         for _ in range(rk.randint(0, 3)):
@@ -916,7 +917,7 @@ class World(object):
         self.monitor = mon
         dr.add_observer(mon, dr.ComponentType)
         for spec in self.case["observers"]:
-            o = Obs(spec["name"], spec["h"], spec["raises"], self.ev)
+            o = Obs(spec["name"], spec["h"], spec["raises"], self.ev, nameless=spec.get("nameless", False))
             self.all_observers.append((o, spec))
             if spec["glob"]:
                 dr.add_observer(o, tmap[spec["on"]])
